@@ -36,6 +36,20 @@ class Clause:
         self.op, self.dotted = op, dotted
 
 
+class CommaList:
+    """the value of an in / not in atom: items separated by ', '"""
+
+    def __init__(self, items):
+        self.items = list(items)
+
+
+class ClauseList:
+    """clauses joined by '||' (alternatives) or ',' (all must hold)"""
+
+    def __init__(self, glue, clauses):
+        self.glue, self.clauses = glue, list(clauses)
+
+
 class ParsedSpec:
     """what parse_version_specifier returns for a one-clause text: the specifier of that clause"""
 
@@ -62,7 +76,7 @@ class EnvMapping:
 
 
 class PyvTheory:
-    text_tokens = ("Dotted", "IntText", "Clause")
+    text_tokens = ("Dotted", "IntText", "Clause", "CommaList", "ClauseList")
 
     def __init__(self, index):
         self.index = index
@@ -88,15 +102,19 @@ class PyvTheory:
 
     def getattr_other(self, ex, o, attr):
         from pyvc.expr import BoundBuiltin
-        if isinstance(o, (Dotted, IntText, SpecObj)):
+        if isinstance(o, (Dotted, IntText, SpecObj, CommaList)):
             return BoundBuiltin(o, attr)
         return None
 
     def method_builtin(self, ex, recv, name, args, kw):
         if isinstance(recv, Dotted) and name == "split" and args == ["."]:
             return list(recv.segs)
-        if isinstance(recv, Dotted) and name == "split" and args == [","]:
-            raise OutsideSubset("in / not in value lists")
+        if isinstance(recv, CommaList) and name == "split" and args == [","]:
+            return list(recv.items)
+        if isinstance(recv, Dotted) and name == "strip" and not args:
+            return recv
+        if isinstance(recv, str) and recv in ("||", ",") and name == "join" and len(args) == 1 and isinstance(args[0], list) and all(isinstance(c, Clause) for c in args[0]):
+            return ClauseList(recv, args[0])
         if isinstance(recv, IntText) and name == "strip" and not args:
             return recv
         if isinstance(recv, SpecObj) and name == "contains" and len(args) >= 1 and isinstance(args[0], Dotted):
@@ -143,8 +161,8 @@ class ParseClause(Contract):
         self.th = th
 
     def result(self, ex, args):
-        if not isinstance(args[0], Clause):
-            raise OutsideSubset("parse_version_specifier on something that is not a single clause")
+        if not isinstance(args[0], (Clause, ClauseList)):
+            raise OutsideSubset("parse_version_specifier on something that is not a clause text")
         return ParsedSpec(args[0])
 
     def ensures(self, ex, args, result):
@@ -208,6 +226,15 @@ def clause_admits(op, segs, cand):
     raise OutsideSubset(f"operator {op}")
 
 
+def spec_admits(ps, cand):
+    """PEP 440 / dep-logic text semantics of a parsed text: one clause, or clauses joined by '||' (any) / ',' (all)"""
+    c = ps.clause
+    if isinstance(c, Clause):
+        return clause_admits(c.op, c.dotted.segs, cand)
+    parts = [clause_admits(x.op, x.dotted.segs, cand) for x in c.clauses]
+    return (z3.Or if c.glue == "||" else z3.And)(*parts) if parts else z3.BoolVal(c.glue != "||")
+
+
 def atom(th, op, segs, reversed_=False):
     return Obj(th.index.cls("MarkerExpression"), {"name": "python_version", "op": op, "value": Dotted(segs), "reversed": reversed_, "_specifier": None})
 
@@ -251,6 +278,32 @@ def cases(th):
                 ok = isinstance(res, ParsedSpec) and res.clause.op == op and res.clause.dotted.segs == segs
                 return [("C11.view.is-the-parse-of-the-atoms-own-clause", z3.BoolVal(bool(ok)))]
             yield {"name": f"view|{name}|{op}", "pre": [X >= 0, Y >= 0], "thunk": (lambda ex, m=m: ex.call_function(g, [m], inline=True)), "post": post2, "args": ()}
+
+
+def list_view_cases(th):
+    """C11, in / not in lists: the specifier view of `python_version in "X.Y, U.V"` admits exactly the full versions A.B.C whose A.B is listed (the view is
+    used unchanged in merges with python_full_version atoms), and of `python_full_version in "X.Y.Z, ..."` exactly the listed versions; `not in` the complements"""
+    g = th.index.func(GETSPEC)
+    A, B, C = z3.Int("a!full"), z3.Int("b!full"), z3.Int("c!full")
+    for name, width in (("python_version", 2), ("python_full_version", 3)):
+        for op in ("in", "not in"):
+            for count in (1, 2, 3):
+                items, pre = [], [A >= 0, B >= 0, C >= 0]
+                for k in range(count):
+                    vs = [z3.Int(f"i{k}_{j}") for j in range(width)]
+                    pre += [v >= 0 for v in vs]
+                    items.append(vs)
+                m = Obj(th.index.cls("MarkerExpression"), {"name": name, "op": op, "value": CommaList([Dotted([IntText(v) for v in vs]) for vs in items]),
+                                                           "reversed": False, "_specifier": None})
+
+                def post(ex, res, items=items, op=op, width=width):
+                    if not isinstance(res, ParsedSpec):
+                        return [("C11.list-view.returns-a-parsed-text", z3.BoolVal(False))]
+                    got = spec_admits(res, (A, B, C))
+                    cand = (A, B, C)[:width]
+                    listed = z3.Or(*[z3.And(*[cand[j] == vs[j] for j in range(width)]) for vs in items])
+                    return [("C11.list-view.admits-exactly-the-listed-series", got == (listed if op == "in" else z3.Not(listed)))]
+                yield {"name": f"list-view|{name}|{op}|{count}", "pre": pre, "thunk": (lambda ex, m=m: ex.call_function(g, [m], inline=True)), "post": post, "args": ()}
 
 
 def bridge_cases(th):
